@@ -162,9 +162,26 @@ def cmp_holds(c, ob):
     elif op == 'MATCHES': r = isinstance(v, str) and re.search(val(rhs), v) is not None
     else: raise NotImplementedError(op)
     return (not r) if neg else r
+def tok(l):
+    """typed value token of a literal: numbers compare numerically whatever their spelling, every other kind only with its own kind"""
+    k, v = l
+    return ('num', float(v)) if k == 'num' else (k, v)
+def cmp_holds_typed(c, ob):
+    """as cmp_holds, for observations holding typed tokens (kind, value): equality within a kind, ordering on numbers only"""
+    _, path, op, neg, rhs = c
+    if path not in ob: return False
+    v = ob[path]
+    if op in ('=', '!='): r = (v == tok(rhs)) if rhs[0] != 'set' else v in [tok(x) for x in rhs[1]]; r = (not r) if op == '!=' else r
+    elif op == 'IN': r = v in [tok(x) for x in rhs[1]]
+    elif op in ('<', '<=', '>', '>='):
+        w = tok(rhs)
+        r = v[0] == 'num' and w[0] == 'num' and {'<': v[1] < w[1], '<=': v[1] <= w[1], '>': v[1] > w[1], '>=': v[1] >= w[1]}[op]
+    else: raise NotImplementedError(op)
+    return (not r) if neg else r
+TYPED = [False]          # observations hold typed tokens (set by matches_typed)
 def ceval(t, ob):
     k = t[0]
-    if k == 'CMP': return cmp_holds(t, ob)
+    if k == 'CMP': return cmp_holds_typed(t, ob) if TYPED[0] else cmp_holds(t, ob)
     if k == 'CAND': return all(ceval(x, ob) for x in t[1])
     if k == 'COR': return any(ceval(x, ob) for x in t[1])
     if k == 'CPAREN': return ceval(t[1], ob)
@@ -197,3 +214,7 @@ def bindings(t, seq):
     raise ValueError(k)
 TS = {"t'2020-01-01T00:00:00Z'": 0, "t'2020-01-01T00:00:01Z'": 1, "t'2020-01-01T00:00:05Z'": 5, "t'2020-01-01T00:00:10Z'": 10}
 def matches(t, seq): return bool(bindings(t, seq))
+def matches_typed(t, seq):
+    TYPED[0] = True
+    try: return bool(bindings(t, seq))
+    finally: TYPED[0] = False
